@@ -3,7 +3,9 @@
 S=$1; P=$2; shift 2
 git -C /repo diff --quiet || { echo "/repo dirty"; exit 2; }
 git -C /repo apply /verif/seeded/$S/patch.diff || exit 2
+cp /verif/evidence/$P.json /tmp/seedrun.$P.evidence.bak 2>/dev/null
 cd /verif && ./check $P "$@" > /tmp/seedrun.$S.$P.log 2>&1; E=$?
+cp /tmp/seedrun.$P.evidence.bak /verif/evidence/$P.json 2>/dev/null
 git -C /repo checkout -- .
 grep -v -E "WARNING conda|SELFTEST" /tmp/seedrun.$S.$P.log | grep -E "^(VIOLATION|KNOWN|HARNESS|C[0-9]+ \\[)" | cut -c1-400 | tail -5
 echo "seed=$S check=$P exit=$E"
